@@ -52,6 +52,20 @@ REG['C12'] = dict(
     'kinds, schedule ops, fired faults); non-trivial = two histories were '
     'compared instant by instant')
 
+REG['C16'] = dict(
+    oracle='c16', profiles=[('stop', 1, None)],
+    quick=3000, thorough=100000,
+    vacuity=['stop_segments', 'F_STOP_checked', 'never_fired',
+             'continued_with_stop', 'op_gt', 'op_ge', 'op_eq', 'op_lt',
+             'op_le', 'sensor_encoder', 'sensor_tachometer',
+             'sensor_amperometer', 'stopped_at_first_checked'],
+    rule='stop thresholds placed from a dry run of the same scenario (inside '
+    'the range, on a recorded sample, between two samples, before, beyond), '
+    'encoder/tachometer on any element or amperometer, five operators, fresh '
+    'and continued runs; distinct = (chain kinds, schedule, fired faults, '
+    'sensor, operator, placement); non-trivial = a run segment with a stop '
+    'condition was judged')
+
 NOT_APPLICABLE = [
     {'property_id': 'C05',
      'reason': 'stateless function of (value, from-unit, to-unit): no schedule, clock, fault, I/O or history for a simulator to act on; its quantifier is decided by exhaustive enumeration of unit pairs, a different technique (DESIGN.md section 6)'},
